@@ -766,7 +766,7 @@ fn main() {
     );
     let thorough = rep.is_thorough();
     let mut rng = Rng::from_env();
-    let scenarios = if thorough { 2400 } else { 190 };
+    let scenarios = if thorough { 1500 } else { 160 };
     let mut asks: Vec<Ask> = vec![];
     let mut inexact_candidates = 0u64;
 
